@@ -82,12 +82,13 @@ func (r *RelayAddressGeneratorPortRange) AllocatePacketConn(
 			return nil, nil, err
 		}
 
-		relayAddr, ok := conn.LocalAddr().(*net.UDPAddr)
+		localAddr, ok := conn.LocalAddr().(*net.UDPAddr)
 		if !ok {
 			return nil, nil, errNilConn
 		}
 
-		relayAddr.IP = r.RelayAddress
+		// The socket owns the address it reports: advertise a copy of it.
+		relayAddr := &net.UDPAddr{IP: r.RelayAddress, Port: localAddr.Port, Zone: localAddr.Zone}
 
 		return conn, relayAddr, nil
 	}
@@ -100,12 +101,13 @@ func (r *RelayAddressGeneratorPortRange) AllocatePacketConn(
 			continue
 		}
 
-		relayAddr, ok := conn.LocalAddr().(*net.UDPAddr)
+		localAddr, ok := conn.LocalAddr().(*net.UDPAddr)
 		if !ok {
 			return nil, nil, errNilConn
 		}
 
-		relayAddr.IP = r.RelayAddress
+		// The socket owns the address it reports: advertise a copy of it.
+		relayAddr := &net.UDPAddr{IP: r.RelayAddress, Port: localAddr.Port, Zone: localAddr.Zone}
 
 		return conn, relayAddr, nil
 	}
@@ -143,14 +145,15 @@ func (r *RelayAddressGeneratorPortRange) AllocateListener( // nolint: cyclop
 			return nil, nil, err
 		}
 
-		relayAddr, ok := ln.Addr().(*net.TCPAddr)
+		localAddr, ok := ln.Addr().(*net.TCPAddr)
 		if !ok {
 			_ = ln.Close()
 
 			return nil, nil, errNilConn
 		}
 
-		relayAddr.IP = r.RelayAddress
+		// The socket owns the address it reports: advertise a copy of it.
+		relayAddr := &net.TCPAddr{IP: r.RelayAddress, Port: localAddr.Port, Zone: localAddr.Zone}
 
 		return ln, relayAddr, nil
 	}
